@@ -39,7 +39,11 @@ ALPHABETS = {
     'atm': 'atm',                                  # surface layer name 'atm' is layer 18 here
     'scrambled': 'qwertyuiopasdfghjklzxcvbnm',      # no two neighbours consecutive: longest ite form
     'dups': 'abracadabra',                          # callers pass it through uniqstring -> 'abrcd'
+    'wxyz2': 'wWxXyYzZ',                            # a letter in both cases: case folding creates duplicates
 }
+# An alphabet name 'X^u' / 'X^l' means: the character set that the REAL mulgrid.rectangular
+# hands to the name generators when called with chars = ALPHABETS[X], case = 'u' / 'l'
+# (captured from a 1x1x1 call), i.e. its case folding + uniqstring prologue is executed.
 NMAX = {'quick': 20000, 'thorough': 150000}
 
 _LD = None
@@ -163,7 +167,47 @@ def model_codes(m, s):
 def justfn_of(M, just):
     return M.str.rjust if just == 'r' else M.str.ljust
 
+def rectangular_passes_on(M, chars, case, **kw):
+    """Run the real mulgrid.rectangular and return (grid or exception, the
+    `chars` it passes to node_name_from_number).  The generator method is
+    wrapped on the class for the duration of the call only."""
+    captured = []
+    orig = M.mulgrid.node_name_from_number
+    def spy(self, num, justfn, chs, sp):
+        captured.append(chs)
+        return orig(self, num, justfn, chs, sp)
+    M.mulgrid.node_name_from_number = spy
+    try:
+        try:
+            g = M.mulgrid().rectangular(kw.pop('xblocks', [1.0]), kw.pop('yblocks', [1.0]), kw.pop('zblocks', [1.0]),
+                                        chars=chars, case=case, **kw)
+        except Exception as ex:
+            g = ex
+    finally:
+        M.mulgrid.node_name_from_number = orig
+    return g, (captured[0] if captured else None)
+
+
+def fold_text(text, case):
+    return text.upper() if case == 'u' else text.lower() if case == 'l' else text
+
+def uniq_text(text):
+    out = ''
+    for ch in text:
+        if ch not in out: out += ch
+    return out
+
+def expected_chars(alpha):
+    """independent definition of the prepared character set"""
+    base, _, case = alpha.partition('^')
+    return uniq_text(fold_text(ALPHABETS[base], case or None))
+
 def the_chars(M, alpha):
+    if '^' in alpha:
+        base, _, case = alpha.partition('^')
+        g, passed = rectangular_passes_on(M, ALPHABETS[base], case)
+        if passed is None: raise RuntimeError('rectangular did not call the node name generator: %r' % (g,))
+        return IxStr(passed)
     return IxStr(M.uniqstring(ALPHABETS[alpha]))
 
 
@@ -226,12 +270,16 @@ def task_gen(kind, conv, just, alpha, spaces, N):
         c.exact_int_digits = True
         g = M.mulgrid(convention=conv)
         chars = the_chars(M, alpha)
-        cap = capacity(kind, conv, len(chars), spaces)
+        want_chars = expected_chars(alpha)
+        cap = capacity(kind, conv, len(want_chars), spaces)
         L = name_length(kind, conv)
         f = getattr(g, kind + '_name_from_number')
         i = c.int('i', 0, N); j = c.int('j', 0, N)
         def rp(label):
             return lambda m: dict(cfg, task='gen', label=label, i=_mv(m, i), j=_mv(m, j))
+        if '^' in alpha:
+            ob.prove(c, str(chars) == want_chars, 'charset-prepared', rp('charset-prepared'),
+                     'the character set rectangular() passes to the generators is not the case-folded input without repeats')
         out = []
         for tag, x in (('i', i), ('j', j)):
             try:
@@ -250,7 +298,7 @@ def task_gen(kind, conv, just, alpha, spaces, N):
                      'name returned whose length is not the convention length')
             ob.prove(c, x.e <= cap, 'exhausted-raises', rp('exhausted-raises'),
                      'a name was returned for a number beyond the capacity of the name space')
-            ob.prove(c, well_formed(nm, kind, conv, just, chars, spaces, x.e), 'well-formed', rp('well-formed'),
+            ob.prove(c, well_formed(nm, kind, conv, just, want_chars, spaces, x.e), 'well-formed', rp('well-formed'),
                      'name has characters outside the alphabet or blanks away from the padded side')
             out.append(nm)
         if out[0] is None or out[1] is None:
@@ -318,6 +366,69 @@ def task_roundtrip(conv, just, alpha, spaces, atmos, pair, N):
         return 'checked'
 
     res = sym.explore(h, sym.Ctx(timeout_ms=60000), max_paths=4000)
+    return ob.result(name, res)
+
+
+# ---------------------------------------------------------------------------
+# rectangular: the character-set preparation and the names of a tiny grid, end to end
+
+def task_rectangular(m, case, spaces, conv, just, nx):
+    """The REAL mulgrid.rectangular on an nx x 1 x 2 grid with a SYMBOLIC custom
+    character set of m letters (any mix of cases, repeats allowed) and
+    case = None / 'u' / 'l'.  Decided: the set it passes on to the generators
+    has no repeated character and is exactly the case-folded input; node,
+    column, layer and block names of the grid are pairwise distinct and
+    nothing is dropped; a naming error only when the name space is too small."""
+    M = _load().mulgrids
+    name = 'rectangular/m%d/case-%s/%s/conv%d/%s/nx%d' % (m, case, 'spaces' if spaces else 'nospaces', conv, just, nx)
+    ob = Ob(name)
+    cfg = dict(task='rect', case=case, spaces=spaces, conv=conv, just=just, nx=nx)
+
+    def h(c):
+        c.exact_int_digits = True
+        s = sym_name(c, 'a', m, chars=ascii_lowercase + ascii_uppercase)
+        def fold(e):
+            if case == 'u': return z3.If(z3.And(e >= 97, e <= 122), e - 32, e)
+            if case == 'l': return z3.If(z3.And(e >= 65, e <= 90), e + 32, e)
+            return e
+        fc = [fold(x.code) for x in s.cells]
+        if not spaces:
+            # a one-letter set without spaces has no names at all (and int_to_chars does not terminate on it, see notes)
+            c.add(z3.Or(*[a != b for a, b in itertools.combinations(fc, 2)]))
+        rp = lambda mdl: dict(cfg, text=model_text(mdl, s))
+        g, passed = rectangular_passes_on(M, s, case, xblocks=[1.0] * nx, zblocks=[1.0, 1.0], convention=conv, atmos_type=1, justify=just, spaces=spaces)
+        nnodes = 2 * (nx + 1)
+        if passed is not None:
+            pc = [code_of(x) for x in cells_of(passed)]
+            ob.prove(c, z3.And(*[a != b for a, b in itertools.combinations(pc, 2)] + [z3.BoolVal(True)]), 'charset-distinct', rp,
+                     'the character set rectangular() passes to the name generators has a repeated character')
+            ob.prove(c, z3.And(*[z3.Or(*[a == b for b in pc]) for a in fc] + [z3.Or(*[a == b for b in fc]) for a in pc]), 'charset-is-folded-input', rp,
+                     'the character set passed on is not the case-folded input set')
+        if isinstance(g, M.NamingConventionError):
+            if passed is None: return 'exhausted-early'
+            caps = [capacity('node', conv, len(cells_of(passed)), spaces), capacity('layer', conv, len(cells_of(passed)), spaces)]
+            ob.prove(c, nnodes > caps[0] or 2 > caps[1], 'error-only-when-exhausted', rp,
+                     'NamingConventionError although the grid fits the name space of the character set')
+            return 'exhausted'
+        if isinstance(g, Exception):
+            ob.fail(c, 'unexpected-exception', rp, 'rectangular raised %s: %s' % (type(g).__name__, g))
+            return 'exception'
+        nodes = [x.name for x in g.nodelist]; cols = [x.name for x in g.columnlist]; lays = [x.name for x in g.layerlist]
+        ob.prove(c, len(nodes) == nnodes and len(cols) == nx and len(lays) == 3, 'nothing-dropped', rp,
+                 'rectangular made %d nodes, %d columns, %d layers instead of %d, %d, 3' % (len(nodes), len(cols), len(lays), nnodes, nx))
+        def distinct(xs): return z3.And(*[z3.Not(eq_expr(a, b)) for a, b in itertools.combinations(xs, 2)] + [z3.BoolVal(True)])
+        ob.prove(c, distinct(nodes), 'node-names-distinct', rp, 'two nodes of the grid have the same name')
+        ob.prove(c, distinct(cols), 'column-names-distinct', rp, 'two columns of the grid have the same name')
+        ob.prove(c, distinct(lays), 'layer-names-distinct', rp, 'two layers of the grid have the same name')
+        blks = list(g.block_name_list)
+        ob.prove(c, len(blks) == 3 * nx and all(len(b) == 5 for b in blks), 'block-count-and-length', rp, 'block names missing or not five characters')
+        ob.prove(c, distinct(blks), 'block-names-distinct', rp, 'two blocks of the grid have the same name')
+        ob.prove(c, len(g.block_name_index) == len(blks), 'block-index-complete', rp, 'the by-name block index lost an entry')
+        if len(ob.samples) < 1:
+            ob.samples.append(dict(task=name, input=repr(s), passed_on=repr(passed), columns=[repr(x)[:60] for x in cols[:2]]))
+        return 'grid:%d letters' % len(cells_of(passed))
+
+    res = sym.explore(h, sym.Ctx(timeout_ms=60000), max_paths=20000)
     return ob.result(name, res)
 
 
@@ -757,6 +868,17 @@ def gen_configs(tier):
                 for alpha in alphas:
                     for spaces in (True, False):
                         out.append((kind, conv, just, alpha, spaces))
+    # character sets as the real rectangular() prepares them (case folding + uniqstring)
+    for kind, conv, just, alpha, spaces in [('column', 0, 'r', 'letters52^u', True), ('node', 0, 'l', 'letters52^l', False),
+                                            ('column', 3, 'r', 'wxyz2^u', True), ('node', 3, 'r', 'wxyz2^l', False)]:
+        out.append((kind, conv, just, alpha, spaces))
+    if tier == 'thorough':
+        for kind in ('column', 'node'):
+            for conv in (0, 3):
+                for just in ('r', 'l'):
+                    for alpha in ('letters52^u', 'letters52^l', 'wxyz2^u', 'wxyz2^l', 'dups^u'):
+                        for spaces in (True, False):
+                            if (kind, conv, just, alpha, spaces) not in out: out.append((kind, conv, just, alpha, spaces))
     return out
 
 
@@ -767,7 +889,7 @@ def run(tier, seed, rep):
     gens = gen_configs(tier)
     if tier == 'quick':
         # node_name_from_number shares its body with column_name_from_number: one alphabet for nodes in the quick tier
-        gens = [g for g in gens if not (g[0] == 'node' and g[3] not in ('lower',))]
+        gens = [g for g in gens if not (g[0] == 'node' and g[3] not in ('lower',) and '^' not in g[3])]
     for g in gens:
         tasks.append((task_gen, dict(kind=g[0], conv=g[1], just=g[2], alpha=g[3], spaces=g[4], N=N)))
     rt_alphas = ['lower', 'letters52', 'abc'] if tier == 'quick' else ['lower', 'upper', 'letters52', 'abc', 'scrambled', 'atm']
@@ -802,6 +924,13 @@ def run(tier, seed, rep):
                         tasks.append((task_newkey, dict(which=which, conv=conv, just=just, alpha=alpha, spaces=spaces, nkeys=nkeys, N=N)))
     for check in ('fix', 'unfix', 'print', 'cycle', 'fixunfixfix', 'valid'):
         tasks.append((task_fix, dict(check=check)))
+    for m in ((3,) if tier == 'quick' else (2, 3, 4)):
+        for case in (None, 'u', 'l'):
+            for spaces in (True, False):
+                for conv in range(4):
+                    for just in (('r',) if tier == 'quick' else ('r', 'l')):
+                        if m == 4 and (just == 'l' or conv in (1, 2)): continue
+                        tasks.append((task_rectangular, dict(m=m, case=case, spaces=spaces, conv=conv, just=just, nx=3)))
     for m in (1, 2):
         tasks.append((task_mapping, dict(m_entries=m)))
     if tier == 'thorough':
@@ -831,6 +960,9 @@ def run(tier, seed, rep):
         'fix / unfix / cycle: all five-character names over printable ASCII 32..126 (superset of letters, digits, blank); valid_blockname over codes 0..127',
         'fix_block_mapping: mappings of 1 and 2 entries of such names' + (', 3 entries whose values need no repair' if tier == 'thorough' else ''),
         'uniqstring: strings of up to %d letters' % (4 if tier == 'quick' else 6),
+        'rectangular end to end: 3 x 1 x 2 grid, atmosphere type 1, symbolic custom character set of %s letters over a-zA-Z (repeats and both cases allowed), '
+        'case None/u/l, spaces allowed or not, conventions 0-3; and the generator tasks on the sets rectangular() really passes on for '
+        'ascii_letters / wWxXyYzZ%s with case u / l' % ('3' if tier == 'quick' else '2, 3, 4', '' if tier == 'quick' else ' / abracadabra'),
         'layer counts beyond the add_layers windows (up to 120) only by composition: numbers strictly increase (decided for the windows) + generator injectivity on [0, N] (decided); '
         '%d concrete 120-layer runs of the real add_layers agree with the prediction (validation, not a deciding step)' % n120,
     ]
@@ -845,7 +977,11 @@ def run(tier, seed, rep):
         'and write-then-read (fix after unfix) is stable after one cycle for every name',
     ]
     rep.assumptions += [
-        'alphabet passed to the generators has distinct characters (callers apply uniqstring, checked separately on symbolic strings)',
+        'alphabet passed to the generators has distinct characters: decided for rectangular() on symbolic sets (rectangular/*/charset-distinct) and, for the '
+        "'X^u'/'X^l' alphabets, taken from an execution of the real rectangular(); for the plain catalogue alphabets the harness applies the real uniqstring itself "
+        '(add_layers and from_gmsh call uniqstring directly before use)',
+        'rectangular with spaces not allowed: the character set has at least two different letters after case folding (a one-letter set has no names; '
+        'int_to_chars(i, chars of one letter, spaces=False) does not terminate - RecursionError - reported, see notes)',
         'chars[k %% n] on a concrete alphabet and a symbolic index is the exact piecewise-linear/ite term over the alphabet (vx.strs.IxStr); '
         "str(i) / '%%2d' %% i of a non-negative symbolic integer are its decimal digits (fork per digit count); both validated against the real functions on "
         '%d boundary numbers at the start of every run' % nval,
@@ -862,7 +998,7 @@ def run(tier, seed, rep):
                           'mulgrids.py:node_col_name_from_number', 'mulgrids.py:column_name_from_number',
                           'mulgrids.py:node_name_from_number', 'mulgrids.py:layer_name_from_number',
                           'mulgrids.py:new_node_name', 'mulgrids.py:new_column_name', 'mulgrids.py:add_layers',
-                          'mulgrids.py:set_secondary_variables'])
+                          'mulgrids.py:set_secondary_variables', 'mulgrids.py:rectangular'])
     rep.process_failures()
     return rep.finish(rule='one obligation per (task shape, path, label): path condition AND NOT(obligation) must be unsat; '
                       'distinct = non-constant formulas deduplicated by (label, z3 AST hash) per task')
